@@ -269,6 +269,39 @@ theorem C18_repair_succeeds_dec (S' : Spec) (fuel' : Nat) (st' : St) (e' : Entry
     rw [hv] at this
     cases this
 
+/-! ## histories: what an earlier successful load cached stays -/
+
+/-- **Cached models stay, along any history.**  On a metamodel with a global repository, whatever loads
+follow (`ops2`: any entry points, files and faults, failing in any phase or succeeding), the global
+repository after them starts with the repository as it was (`ops1`): same files, same instances, same
+order — entries are only ever appended (by successful loads, `C18_entry_clean`: a failing load appends
+nothing). -/
+theorem C18_history_cache_stays (ops1 ops2 : List (Spec × Nat × Op)) (h : HistOK true (ops1 ++ ops2) St.init) :
+    ∃ N, (runOps (ops1 ++ ops2) St.init).all = (runOps ops1 St.init).all ++ N := by
+  obtain ⟨h1, h2⟩ := histOK_append true ops1 ops2 St.init h
+  rw [runOps_append]
+  refine runOps_prefix ops2 _ ?_ h2
+  let T : Spec := { calls := fun _ => [], defs := fun _ => [], refs := fun _ => [], syntaxErr := fun _ => false,
+                    objFault := fun _ => false, modFault := fun _ => false, builtins := [], glob := true }
+  have := runOps_wf true ops1 St.init (fun T _ => WF.init.base T) h1 T rfl
+  rw [base_of_glob T _ rfl] at this
+  exact this
+
+/-- one failing step in the middle of a history: the repository after it is the repository before it -/
+theorem C18_history_fail_step (ops : List (Spec × Nat × Op)) (S : Spec) (fuel : Nat) (f : File)
+    (h : HistOK true ops St.init) (hg : S.glob = true) (k : Kind)
+    (hf : (loadMain S fuel (runOps ops St.init) f).2.1 = .fail k) :
+    (runOps (ops ++ [(S, fuel, .file f)]) St.init).all = (runOps ops St.init).all := by
+  rw [runOps_append]
+  show (loadMain S fuel (runOps ops St.init) f).1.all = _
+  let T : Spec := { calls := fun _ => [], defs := fun _ => [], refs := fun _ => [], syntaxErr := fun _ => false,
+                    objFault := fun _ => false, modFault := fun _ => false, builtins := [], glob := true }
+  have hwf := runOps_wf true ops St.init (fun T _ => WF.init.base T) h T rfl
+  rw [base_of_glob T _ rfl] at hwf
+  exact (C18_clean S fuel _ f _ k _ hwf hg
+    (show loadMain S fuel (runOps ops St.init) f = (_, .fail k, (loadMain S fuel (runOps ops St.init) f).2.2) by
+      rw [← hf])).1
+
 /-! ## non-vacuity: every phase failing in an imported file and in the main file -/
 
 /-- file 0 imports 1 and 2, file 1 imports 2 and 0; the fault sits in file `v` -/
@@ -360,5 +393,12 @@ example : (Entry.run (exF 3 3) 4 exSt' (.file 0)).2.1 = .ok :=
     (loadMain_wf (exF 3 0) 4 exSt 0 rfl (loadMain_wf (exF 9 0) 4 St.init 3 rfl WF.init (by decide)) (by decide))
     trivial [0, 1, 2] (by decide) (by decide) (by decide) (by decide) (by decide)
 example : ¬ NoFault (exF 3 3) := fun h => by have := h.mod 3; revert this; decide
+
+/-- a history: file 3 is cached, a load of file 0 fails (model processor), the repaired load succeeds -/
+def exHist : List (Spec × Nat × Op) := [(exF 9 0, 4, .file 3), (exF 3 0, 4, .file 0), (exF 9 0, 4, .file 0)]
+example : HistOK true exHist St.init := ⟨rfl, by decide, rfl, by decide, rfl, by decide, trivial⟩
+example : (runOps (exHist.take 1) St.init).all = [(3, 0)] := by decide
+example : (runOps (exHist.take 2) St.init).all = [(3, 0)] := by decide
+example : (runOps exHist St.init).all = [(3, 0), (0, 4), (1, 5), (2, 6)] := by decide
 
 end Repo
